@@ -482,7 +482,8 @@ fn run(ctx: &RunCtx) {
         }
         false
     };
-    let m = matrix();
+    static MATRIX: std::sync::OnceLock<Vec<Case>> = std::sync::OnceLock::new();
+    let m = MATRIX.get_or_init(matrix);
     ctx.add_class("matrix_cases", m.len() as u64);
     ctx.enumerate("matrix", m.len() as u64, |i, st| {
         let c = &m[i as usize];
